@@ -25,6 +25,10 @@ pub enum Op {
     DrMov(u8, u8),
     /// BSET / BCLR #bit on DR through a real instruction (read-modify-write)
     DrBit(u8, u8, bool),
+    /// any read-modify-write bit instruction on DR (port, bit, kind 0 BSET 1 BCLR 2 BNOT 3 BST 4 BIST, flags: bit 0 =
+    /// C before the instruction, bit 1 = bit number from a register, bit 2 = operand through @ERd instead of @aa:8):
+    /// the CPU reads DR, changes one bit and writes the whole byte back - also when the byte comes out unchanged
+    DrRmw(u8, u8, u8, u8),
     /// advance the time base (the state counter is 64 bits wide: increments reach past 2^32)
     Tick(u64),
     /// one MOV.W Rs,@aa:16 over the DRs of ports p (odd) and p+1: a 16-bit access is the composition of two byte
@@ -38,7 +42,7 @@ pub enum Op {
 impl Op {
     fn port(&self) -> Option<u8> {
         match *self {
-            Op::Ddr(p, _) | Op::Dr(p, _) | Op::Pins(p, _) | Op::PinsLine(p, _) | Op::DrMov(p, _) | Op::DrBit(p, _, _) | Op::DrWord(p, _, _) => Some(p),
+            Op::Ddr(p, _) | Op::Dr(p, _) | Op::Pins(p, _) | Op::PinsLine(p, _) | Op::DrMov(p, _) | Op::DrBit(p, _, _) | Op::DrWord(p, _, _) | Op::DrRmw(p, _, _, _) => Some(p),
             Op::Tick(_) | Op::Stray(..) => None,
         }
     }
@@ -158,6 +162,23 @@ fn execute(emu: &mut Emu, ops: &[Op]) -> Result<Vec<([u8; 11], Vec<String>)>, St
                 emu.cpu.bus.cpu_state_sum = emu.cpu.bus.cpu_state_sum.wrapping_add(n as usize);
                 Ok(())
             }
+            Op::DrRmw(p, b, kind, fl) => {
+                let bop = [BitOp::Bset, BitOp::Bclr, BitOp::Bnot, BitOp::Bst, BitOp::Bist][kind as usize % 5];
+                let by_reg = fl & 2 != 0 && bop.has_reg_form();
+                let sel = if by_reg { BitSel::Reg(9) } else { BitSel::Imm(b & 7) }; // R1L
+                let tgt = if fl & 4 != 0 { BitTgt::Ind(2) } else { BitTgt::A8(dr_addr(p) as u8) };
+                let insn = Insn::Bit { op: bop, sel, tgt };
+                for (k, x) in encode(&insn).iter().enumerate() {
+                    raw_set(&mut emu.cpu.bus, CODE + k as u32, *x);
+                }
+                emu.cpu.er = [0, 0xffff_ff00 | (0xf8 | (b & 7)) as u32, dr_addr(p) | 0x5a00_0000, 0, 0, 0, 0, 0xffe000];
+                emu.set_pc(CODE);
+                emu.set_ccr(0x80 | (fl & 1));
+                match emu.step() {
+                    EmuResult::Ok(_) => Ok(()),
+                    other => Err(format!("{:?}", other)),
+                }
+            }
             Op::Stray(a, v) => {
                 if let Some(old) = raw_get(&emu.cpu.bus, a) {
                     undo.push((a, old));
@@ -196,6 +217,19 @@ fn execute(emu: &mut Emu, ops: &[Op]) -> Result<Vec<([u8; 11], Vec<String>)>, St
     Ok(out)
 }
 
+/// the byte a read-modify-write bit instruction writes back
+fn rmw(cur: u8, b: u8, kind: u8, fl: u8) -> u8 {
+    let m = 1u8 << (b & 7);
+    let c = fl & 1 != 0;
+    match kind % 5 {
+        0 => cur | m,
+        1 => cur & !m,
+        2 => cur ^ m,
+        3 => if c { cur | m } else { cur & !m },
+        _ => if !c { cur | m } else { cur & !m },
+    }
+}
+
 /// compare the observation with the latch/direction/pins model of the statement
 fn check_pure(ops: &[Op], obs: &[([u8; 11], Vec<String>)]) -> Result<(), String> {
     let mut ports = [PortModel::default(); 11];
@@ -220,6 +254,11 @@ fn check_pure(ops: &[Op], obs: &[([u8; 11], Vec<String>)]) -> Result<(), String>
                 ports[p as usize].latch = lo;
             }
             Op::Stray(..) => {}
+            Op::DrRmw(p, b, kind, fl) => {
+                let m = &mut ports[p as usize - 1];
+                let cur = m.read();
+                m.latch = rmw(cur, b, kind, fl);
+            }
         }
         let (reads, msgs) = &obs[i];
         for p in 0..11 {
@@ -296,6 +335,10 @@ fn check_merged(ops: &[Op], obs: &[([u8; 11], Vec<String>)]) -> bool {
                 wr_dr(&mut ports[p as usize], p + 1, lo, &mut exp);
             }
             Op::Stray(..) => {}
+            Op::DrRmw(p, b, kind, fl) => {
+                let cur = ports[p as usize - 1].m;
+                wr_dr(&mut ports[p as usize - 1], p, rmw(cur, b, kind, fl), &mut exp);
+            }
         }
         let (reads, msgs) = &obs[i];
         for p in 0..11 {
@@ -327,7 +370,8 @@ fn build_history(e: &mut Ent) -> Vec<Op> {
     for _ in 0..n {
         let p = if e.chance(1, 2) { p1 } else { p2 };
         let v = values(e);
-        ops.push(match e.below(14) {
+        ops.push(match e.below(15) {
+            14 => Op::DrRmw(p, v & 7, e.below(5) as u8, e.below(8) as u8),
             13 => {
                 let base = if e.chance(1, 2) { dr_addr(p) } else { ddr_addr(p) };
                 let a = match e.below(4) {
@@ -374,7 +418,7 @@ fn interesting(ops: &[Op]) -> (bool, bool) {
     let (mut a, mut b) = (false, false);
     for op in ops {
         match *op {
-            Op::Dr(p, _) | Op::DrMov(p, _) | Op::DrBit(p, _, _) => written_while_input[p as usize - 1] |= !ddr[p as usize - 1],
+            Op::Dr(p, _) | Op::DrMov(p, _) | Op::DrBit(p, _, _) | Op::DrRmw(p, _, _, _) => written_while_input[p as usize - 1] |= !ddr[p as usize - 1],
             Op::DrWord(p, _, _) => {
                 written_while_input[p as usize - 1] |= !ddr[p as usize - 1];
                 written_while_input[p as usize] |= !ddr[p as usize];
@@ -401,7 +445,7 @@ fn ops_json(ops: &[Op]) -> Value {
     json!({"kind": "port-history", "ops": ops.iter().map(|o| match *o {
         Op::Ddr(p, v) => json!(["ddr", p, v]), Op::Dr(p, v) => json!(["dr", p, v]), Op::Pins(p, v) => json!(["pins", p, v]),
         Op::PinsLine(p, v) => json!(["pinsline", p, v]), Op::DrMov(p, v) => json!(["drmov", p, v]),
-        Op::DrBit(p, b, s) => json!(["drbit", p, b, s]), Op::Tick(n) => json!(["tick", n]), Op::DrWord(p, h, l) => json!(["drword", p, h, l]), Op::Stray(a, v) => json!(["stray", a, v]) }).collect::<Vec<_>>()})
+        Op::DrBit(p, b, s) => json!(["drbit", p, b, s]), Op::Tick(n) => json!(["tick", n]), Op::DrWord(p, h, l) => json!(["drword", p, h, l]), Op::Stray(a, v) => json!(["stray", a, v]), Op::DrRmw(p, b, k, f) => json!(["drrmw", p, b, k, f]) }).collect::<Vec<_>>()})
 }
 fn ops_from_json(v: &Value) -> Option<Vec<Op>> {
     Some(
@@ -420,6 +464,7 @@ fn ops_from_json(v: &Value) -> Option<Vec<Op>> {
                     "drmov" => Op::DrMov(a as u8, b as u8),
                     "drword" => Op::DrWord(a as u8, b as u8, o.get(3)?.as_u64()? as u8),
                     "stray" => Op::Stray(a as u32, b as u8),
+                    "drrmw" => Op::DrRmw(a as u8, b as u8, o.get(3)?.as_u64()? as u8, o.get(4)?.as_u64()? as u8),
                     "drbit" => Op::DrBit(a as u8, b as u8, o.get(3)?.as_bool()?),
                     _ => Op::Tick(a),
                 })
@@ -574,7 +619,7 @@ pub fn run(ctx: &Ctx) -> i32 {
             let mut st = w.stats.borrow_mut();
             if !shrinking {
                 st.class("random history");
-                if ops.iter().any(|o| matches!(o, Op::DrMov(..) | Op::DrBit(..))) {
+                if ops.iter().any(|o| matches!(o, Op::DrMov(..) | Op::DrBit(..) | Op::DrRmw(..))) {
                     st.class("history with DR writes by real instructions");
                 }
                 let ports: std::collections::BTreeSet<u8> = ops.iter().filter_map(|o| o.port()).collect();
